@@ -1048,20 +1048,44 @@ class BatchNormF(OpDef):
                 for affine in (True, False):
                     for track in (True, False):
                         out.append({"shape": L(s), "training": training, "affine": affine, "track": track})
+        # exactly one running statistic: the other one is the batch statistic.  PyTorch refuses this in eval mode; if the
+        # call is accepted, the result is the documented formula and the gradient is its VJP
+        for only in ("rm", "rv"):
+            for training in (False, True):
+                out.append({"shape": [2, 2], "training": training, "affine": training, "track": True, "only": only})
         return out
+
+    def may_reject(self, args):
+        return bool(args.get("only"))
+
+    def illegal_configs(self, tier):
+        # parameters / statistics that are not of shape (C,): a (C,1) weight or a one-channel statistic would broadcast silently
+        return [{"shape": [2, 2], "training": True, "affine": True, "track": False, "gshape": [2, 1]},
+                {"shape": [2, 2, 2], "training": True, "affine": True, "track": False, "gshape": [1]},
+                {"shape": [2, 2], "training": True, "affine": False, "track": True, "rshape": [1]},
+                {"shape": [2, 1], "training": True, "affine": False, "track": True, "rshape": [2]},
+                {"shape": [2, 2], "training": False, "affine": False, "track": True, "rshape": [1]},
+                {"shape": [2, 2], "training": False, "affine": True, "track": True, "rshape": [2, 1]}]
 
     def inputs(self, args):
         c = args["shape"][1]
         ins = [Inp("x", args["shape"])]
+        gs = tuple(args.get("gshape", (c,)))
+        rs = tuple(args.get("rshape", (c,)))
         if args["affine"]:
-            ins += [Inp("gamma", (c,), param=True), Inp("beta", (c,), param=True)]
+            ins += [Inp("gamma", gs, param=True), Inp("beta", gs, param=True)]
         if args["track"]:
-            ins += [Inp("rm", (c,), differentiable=False), Inp("rv", (c,), differentiable=False, lo=0.1, hi=3)]
+            if args.get("only") != "rv":
+                ins += [Inp("rm", rs, differentiable=False)]
+            if args.get("only") != "rm":
+                ins += [Inp("rv", rs, differentiable=False, lo=0.1, hi=3)]
         return ins
 
     def documented_inplace(self, args):
         # running statistics are updated in training mode (documented)
-        return ("rm", "rv") if (args["training"] and args["track"]) else ()
+        if not (args["training"] and args["track"]):
+            return ()
+        return (args["only"],) if args.get("only") else ("rm", "rv")
 
     def extra(self, args, env):
         return {"eps": env.scalar("eps", lo=0, hi=0.5, lo_strict=True, kind="data"),
@@ -1074,7 +1098,12 @@ class BatchNormF(OpDef):
             g, b = ts[1], ts[2]
             i = 3
         if args["track"]:
-            rm, rv = ts[i], ts[i + 1]
+            if args.get("only") == "rm":
+                rm = ts[i]
+            elif args.get("only") == "rv":
+                rv = ts[i]
+            else:
+                rm, rv = ts[i], ts[i + 1]
         return g, b, rm, rv
 
     def forward(self, args, ts, extra):
@@ -1089,11 +1118,13 @@ class BatchNormF(OpDef):
         o = objarr(x.shape)
         for c in range(C):
             elems = [idx for idx in np.ndindex(*x.shape) if idx[1] == c]
+            bm = ssum(x[i] for i in elems) / len(elems)
             if use_batch:
-                m = ssum(x[i] for i in elems) / len(elems)
+                m = bm
                 var = ssum((x[i] - m) * (x[i] - m) for i in elems) / len(elems)    # biased
             else:
-                m, var = rm[c], rv[c]
+                m = rm[c] if rm is not None else bm
+                var = rv[c] if rv is not None else ssum((x[i] - bm) * (x[i] - bm) for i in elems) / len(elems)
             sd = ssqrt(var + extra["eps"])
             for i in elems:
                 v = (x[i] - m) / sd
